@@ -1,10 +1,10 @@
 (* C05 - Gamma is 1 - observed/expected over the requested chance samples.  Proofs in theories/Gamma/{GammaRunProofs,GammaKProofs}.v.
    The C05_src_* theorems at the end are re-proved on every run against genprops/GammaGen.v, the translation of GammaResults.gamma /
    expected_disorder and of the sample-count rule of compute_gamma from the CURRENT continuum.py (harness/gen_gamma.py). *)
-From Coq Require Import List Arith ZArith QArith Qround Bool String Lia.
+From Coq Require Import String List Arith ZArith QArith Qround Bool Lia.
 From PGA Require Import Gamma.GammaK Gamma.GammaKProofs Gamma.GammaRun Gamma.GammaRunProofs Align.Tuples Align.Cover Align.Inst.
 From PGAgen Require Import ConstGen.
-From PGAprops Require Import GammaGen.
+From PGAprops Require Import GammaGen PoolGen.
 Import ListNotations.
 
 (* the result holds exactly max(n_samples, N_required) chance alignments; none beyond n_samples when no precision level is given *)
@@ -80,3 +80,24 @@ Qed.
 Example C05_src_example :
   (gamma_src (expected_disorder_src [1; 3]) 1 == 1 # 2)%Q /\ (second_batch_src 2 16 == 14)%Q /\ (second_batch_src 30 16 == 0)%Q.
 Proof. vm_compute. repeat split. Qed.
+
+(* the mode selects the job (best by default, soft, fast - after measuring the window size; soft and fast together are refused), the jobs call the
+   alignment the mode names, the sampler is initialised on the continuum with the ground-truth annotators, and the result object receives the best
+   alignment and ALL chance alignments (first and second batch) *)
+Theorem C05_src_modes_and_result :
+  before_pool_src =
+  ["from .dissimilarity import CombinedCategoricalDissimilarity"%string;
+   "if dissimilarity is None: [dissimilarity = CombinedCategoricalDissimilarity()]"%string;
+   "if sampler is None: [from .sampler import StatisticalContinuumSampler; sampler = StatisticalContinuumSampler()]"%string;
+   "sampler.init_sampling(self, ground_truth_annotators)"%string;
+   "job = _compute_best_alignment_job"%string;
+   "if soft and fast: [raise NotImplementedError('Fast-gamma and Soft-gamma are not compatible with each other.')]"%string;
+   "if soft: [job = _compute_soft_alignment_job]"%string;
+   "if fast: [job = _compute_fast_alignment_job; self.measure_best_window_size(dissimilarity)]"%string] /\
+  jobs_src =
+  [("_compute_best_alignment_job"%string, "(dissimilarity, continuum) return continuum.get_best_alignment(dissimilarity)"%string);
+   ("_compute_fast_alignment_job"%string, "(dissimilarity, continuum) if continuum.best_window_size == np.inf: [return continuum.get_best_alignment(dissimilarity)]; return continuum.get_fast_alignment(dissimilarity, continuum.best_window_size)"%string);
+   ("_compute_gamma_k_job"%string, "(dissimilarity, alignment, category) return alignment.gamma_k_disorder(dissimilarity, category)"%string);
+   ("_compute_soft_alignment_job"%string, "(dissimilarity, continuum) return continuum.get_best_soft_alignment(dissimilarity)"%string)] /\
+  after_pool_src = ["return GammaResults(best_alignment=best_alignment, chance_alignments=chance_best_alignments, precision_level=precision_level, dissimilarity=dissimilarity)"%string].
+Proof. repeat split. Qed.
